@@ -12,7 +12,19 @@ import numpy as np
 from vf import refeval as rf, zoo
 
 TOL = 1e-7
+
+
+def pose_tol(theta, reach):
+    """tolerance for 'the pose of joint vector theta': TOL plus what a few ulps of theta itself move the tool - a free
+    solver may return angles of 1e7..1e9 rad, whose own spacing (5e-7 at 3.6e9) already exceeds TOL"""
+    return TOL + 16 * 2.2e-16 * float(np.abs(np.asarray(theta, dtype=float)).sum()) * (1.0 + reach)
 PI = math.pi
+
+
+def free_indices(rng, n):
+    """index set handed to Arm.IKFree: all joints, but never more than six - its Levenberg-Marquardt solver takes at
+    most as many unknowns as there are residuals (the six pose-error components) and refuses anything else"""
+    return list(range(n)) if n <= 6 else sorted(rng.sample(range(n), 6))
 
 
 def tup(x):
@@ -152,7 +164,7 @@ class Runner:
             th, ok = arm.IK(tm(goal.copy()), None if start is None else start.copy(), protect=True)
         else:
             s0 = start if start is not None else zoo.clamp(self.spec, goal_theta + 0.01)
-            th, ok = arm.IKFree(tm(goal.copy()), s0.copy(), list(range(self.n)))
+            th, ok = arm.IKFree(tm(goal.copy()), s0.copy(), free_indices(self.rng, self.n))
         self.ik_calls += 1
         self.ik_success += 1 if ok else 0
         self.ik_ret[i + 1] = np.asarray(th, dtype=float).reshape(-1).copy()
@@ -194,7 +206,7 @@ class Runner:
         elif j[0] == "known":
             th = self.theta_of(j[1])
             want = self.expected_fk(st, th)
-            if mdiff(ee, want) > TOL:
+            if mdiff(ee, want) > pose_tol(th, float(np.abs(want[:3, 3] - B[:3, 3]).max())):
                 return ("O2/O3_state_is_base*PoE*tool", want.tolist(), ee.tolist())
             thc = zoo.clamp(self.spec, th)
             # O5 defaulted queries refer to the state
